@@ -207,7 +207,9 @@ func (n *Node) ToB6() b6.Expression {
 	panic("bad node")
 }
 
-func queryToks(q b6.Query, out []string) []string { return queryToksWith(q, out, func(s string) string { return "s:" + s }) }
+func queryToks(q b6.Query, out []string) []string {
+	return queryToksWith(q, out, func(s string) string { return "s:" + s })
+}
 
 // in values, strings can hold any bytes (reflect converts an int argument to a rune string): hex
 func queryValueToks(q b6.Query, out []string) []string {
@@ -295,7 +297,7 @@ func Functions() api.FunctionSymbols {
 	return api.FunctionSymbols{
 		"zero": func(c *api.Context) (int, error) { return 0, nil },
 		"add":  func(c *api.Context, a int, b int) (int, error) { return a + b, nil },
-		"sub": func(c *api.Context, a int, b int) (int, error) { return a - b, nil },
+		"sub":  func(c *api.Context, a int, b int) (int, error) { return a - b, nil },
 		"div": func(c *api.Context, a int, b int) (int, error) {
 			if b == 0 {
 				return 0, fmt.Errorf("division by zero")
@@ -321,8 +323,19 @@ func Functions() api.FunctionSymbols {
 		"typed":  real["typed"],
 		"and":    real["and"],
 		"or":     real["or"],
+		// the two variadic functions of the real table (used by C22 only: the C21 models have no
+		// variadic builtins): collection(pairs ...interface{}), call(f Callable, args ...interface{})
+		"collection": real["collection"],
+		"call":       real["call"],
 	}
 }
+
+// AllBuiltins lists every function of the table the Lean models have (non-variadic ones).
+var AllBuiltins = []string{"zero", "add", "sub", "div", "mix", "pair", "first", "second", "call1", "call2", "apply", "force",
+	"keyed", "tagged", "typed", "and", "or"}
+
+// VariadicBuiltins are in the table but outside the interpreter / VM models.
+var VariadicBuiltins = []string{"collection", "call"}
 
 func NewContext() *api.Context {
 	return &api.Context{
@@ -349,8 +362,24 @@ func valueToks(v interface{}, out []string) []string {
 		out = append(out, "(", "q")
 		out = queryValueToks(x, out)
 		return append(out, ")")
+	case b6.UntypedCollection:
+		out = append(out, "(", "coll")
+		i := x.BeginUntyped()
+		for n := 0; n < 64; n++ {
+			ok, err := i.Next()
+			if err != nil {
+				out = append(out, "err")
+				break
+			}
+			if !ok {
+				break
+			}
+			out = valueToks(i.Key(), out)
+			out = valueToks(i.Value(), out)
+		}
+		return append(out, ")")
 	}
-	return append(out, fmt.Sprintf("o:%T:", v))
+	return append(out, strings.ReplaceAll(fmt.Sprintf("o:%T:", v), " ", ""))
 }
 
 // FlattenQuery is the canonical form in which query *values* are compared by C22: nested
